@@ -29,7 +29,7 @@ func init() {
 		ID:    "C04",
 		Level: "fault_enumeration",
 		Rule: "one wire mutation per execution of the real client+server exchange (two sessions on separate underlays, three writes per direction): position = every byte of the first M segments / datagrams of each direction (TCP: M=4 quick, 8 thorough, both connections, all kinds at every byte; UDP quick: M=3 of one session, a bit flip at every byte and the other kinds at every 6th byte; UDP thorough: M=8, all kinds at every byte), labelled by the reference decoder (nonce, encrypted metadata, metadata tag, padding, payload body, payload tag); " +
-			"kind = flip bit 0, flip bit 7, set 00, insert a byte before, delete, truncate here, swap with the next segment, replace by the same-index segment of the other session, replace by the same-index segment of the opposite direction, UDP: deliver the datagram again 1 ms / 12 ms / 40 ms / 300 ms / 2 s later, alter a run of 2 / 6 / 12 consecutive datagrams of one direction (header byte or last byte) starting at each position, TCP: remove the whole segment, send it twice, append a copy of the connection's first segment; both transports; patterns {padding max 4, low entropy 40 with rotation}. Oracle: TCP - everything read is a prefix of what was written (the connection may end early); UDP - the stream completes intact within the horizon (for a run of altered datagrams: whenever it does so with the same run lost outright). distinct = distinct (scenario, position, kind)",
+			"kind = flip bit 0, flip bit 7, set 00, insert a byte before, delete, truncate here, swap with the next segment, replace by the same-index segment of the other session, replace by the same-index segment of the opposite direction, UDP: copy the datagram's own encrypted metadata and tag over its payload slot (prefix padding 0..4 assumed), deliver the datagram again 1 ms / 12 ms / 40 ms / 300 ms / 2 s later, alter a run of 2 / 6 / 12 consecutive datagrams of one direction (header byte or last byte) starting at each position, TCP: remove the whole segment, send it twice, append a copy of the connection's first segment; both transports; patterns {padding max 4, low entropy 40 with rotation}. Oracle: TCP - everything read is a prefix of what was written (the connection may end early); UDP - the stream completes intact within the horizon (for a run of altered datagrams: whenever it does so with the same run lost outright). distinct = distinct (scenario, position, kind)",
 		Assumptions: []string{
 			"payloads are 8..40 bytes and padding maxima 4 in the quick tier so that 'every byte position' stays enumerable; thorough adds MTU-size payloads and padding 255",
 			"the mutated byte stream / datagram is what the receiving endpoint's socket returns; everything else is delivered unchanged",
@@ -89,7 +89,7 @@ type outcome struct {
 func run(sc scen, m *mut, base *recording, ctl *explore.Ctl) (explore.Result, *outcome) {
 	v := &xfer.Verdict{Prop: "C04"}
 	pats := patterns()
-	sizes := []int{8, 24, 40}
+	sizes := []int{8, 32, 40} // 32: a payload as long as the metadata
 	if sc.big {
 		sizes = []int{1200, 8, 3000}
 	}
@@ -290,6 +290,16 @@ func run(sc scen, m *mut, base *recording, ctl *explore.Ctl) (explore.Result, *o
 			f := &simnet.Fault{Kind: simnet.Mutate, Name: m.kind}
 			f.Mut = func(b []byte) []byte {
 				i := m.off
+				if strings.HasPrefix(m.kind, "own-metadata-over-payload-") {
+					// splice inside one datagram: the encrypted metadata and its tag (48 bytes after the nonce)
+					// copied over the payload slot, assumed to start k bytes (the prefix padding) after them
+					var k int
+					fmt.Sscanf(m.kind, "own-metadata-over-payload-%d", &k)
+					if len(b) >= 72+k+48 {
+						copy(b[72+k:72+k+48], b[24:72])
+					}
+					return b
+				}
 				switch m.kind {
 				case "splice-other-session":
 					if o := earlier(m.dir, 1-m.conn); o != nil {
@@ -419,6 +429,19 @@ func run(sc scen, m *mut, base *recording, ctl *explore.Ctl) (explore.Result, *o
 	} else if !out.complete {
 		o = "ended-early"
 	}
+	if m != nil && strings.HasPrefix(m.kind, "own-metadata-over-payload-") {
+		// a failure pattern of its own (one root cause: metadata and payload of a datagram are sealed
+		// under the same key and nonce), kept apart from every other way of reading a tampered byte
+		for i := range v.Viol {
+			if strings.HasSuffix(v.Viol[i].Signature, "/tampered-byte-read") {
+				v.Viol[i].Signature = "C04/udp/own-metadata-accepted-as-payload"
+				v.Viol[i].Message = "the datagram's own encrypted metadata and tag, copied over its 32-byte payload slot, authenticate there: " + v.Viol[i].Message
+			}
+		}
+		if len(v.Viol) > 0 {
+			o = v.Viol[0].Signature
+		}
+	}
 	return explore.Result{Outcome: o, Violations: v.Viol, Steps: ex.Steps}, out
 }
 
@@ -520,7 +543,7 @@ var tcpSegKinds = []string{"drop-segment", "dup-segment", "replay-first-segment"
 
 // UDP only: the authentic datagram is delivered and delivered again after the given delay
 // (before the next one, after the next few, after the exchange moved on, after a retransmission timeout)
-var udpSegKinds = []string{"replay-after-1ms", "replay-after-12ms", "replay-after-40ms", "replay-after-300ms", "replay-after-2s"}
+var udpSegKinds = []string{"own-metadata-over-payload-0", "own-metadata-over-payload-1", "own-metadata-over-payload-2", "own-metadata-over-payload-3", "own-metadata-over-payload-4", "replay-after-1ms", "replay-after-12ms", "replay-after-40ms", "replay-after-300ms", "replay-after-2s"}
 
 func units(tier string) []runner.Unit {
 	var us []runner.Unit
